@@ -36,6 +36,27 @@ def ensure_lock():
         shutil.copy(os.path.join(REPO, "Cargo.lock"), lock)
 
 
+def getenv_shim():
+    """Path of the LD_PRELOAD shim that logs getenv() names (tools/getenv_log.c), built on demand; None if no C
+    compiler is available (the environment monitor is then skipped and says so)."""
+    so = os.path.join(BUILD, "getenv_log.so")
+    src = os.path.join(ROOT, "tools", "getenv_log.c")
+    if os.path.exists(so) and os.path.getmtime(so) >= os.path.getmtime(src):
+        return so
+    os.makedirs(BUILD, exist_ok=True)
+    tmp = so + ".%d.tmp" % os.getpid()
+    for cc in ("cc", "gcc", "clang"):
+        try:
+            p = subprocess.run([cc, "-O1", "-shared", "-fPIC", "-o", tmp, src, "-ldl"], stdout=subprocess.PIPE,
+                               stderr=subprocess.PIPE, timeout=120)
+        except (OSError, subprocess.TimeoutExpired):
+            continue
+        if p.returncode == 0:
+            os.replace(tmp, so)
+            return so
+    return None
+
+
 def build(profile="dev", features=(), kind="main", quiet=True):
     """Build the probe; returns the path of a private copy of the binary.
 
